@@ -25,6 +25,8 @@ PROFILES = {
     "C02": dict(peers=None, reup=False, metrics=False, query_ops=True),
     "C03": dict(peers=pipegen.DISTINCT_PEERS[:4], reup=True, metrics=False, query_ops=True),
     "C15": dict(peers=[0, 3, 5, 6, 8], reup=True, metrics=True, query_ops=False),
+    # C13: the configuration is reloaded under traffic; sessions and RIB contents must survive, later routers must be served
+    "C13": dict(peers=pipegen.DISTINCT_PEERS, reup=False, metrics=False, query_ops=True, reload=True, reload_pc=100),
 }
 
 CORPUS = {
@@ -35,7 +37,7 @@ CORPUS = {
         "C 0;I 0;U 0 0 0;R 0 0 0 3 1 0 -;R 0 0 0 4 1 0 1;Q 0 1",
         # a reload that moves the listener: the connected router is not affected ...
         "C 0;I 0;U 0 0 0;R 0 0 0 1 1 0 -;L;R 0 0 0 2 2 0 -;Q 0 1;Q 0 2;X 0;Q 0 1",
-        # ... but a router that connects after a reload (even of an unchanged configuration) is dropped at once: known finding C01-2
+        # ... and a router that connects after a reload is served (fixed C13-reload-drops)
         "C 0;I 0;U 0 0 0;R 0 0 0 1 1 0 -;H;C 1;I 1;U 1 5 0;R 1 5 0 3 1 0 -;Q 0 1",
     ],
     "C02": [
@@ -55,11 +57,18 @@ CORPUS = {
         "C 0;C 1;I 0;I 1;U 0 0 0;U 1 0 0;R 0 0 0 1 1 0 -;R 1 0 0 2 1 0 -;X 0;C 0;I 0;Q 0 1",
     ],
     "C15": [
-        # known finding C15-4: connected routers never goes down; the returning router's peer gauges keep the lost session's peers
+        # fixed 8a86f45: connected routers went never down; a returning router's peer gauges kept the lost session's peers
         "C 0;I 0;U 0 0 1;R 0 0 0 1 1 0 -;M 0;X 0;M 0;C 0;I 0;U 0 0 1;R 0 0 0 2 1,2 0 -;M 0",
-        "C 0;C 1;I 0;I 1;U 0 0 0;U 1 5 1;X 0;M 1;C 0;M 0;I 0;M 0",
-        # unit counters without any loss
+        "C 0;C 1;I 0;I 1;U 0 0 0;U 1 5 1;X 0;M 1;C 0;I 0;M 0",
+        # known finding C15-4: a connected router is not counted before its first message
         "C 0;M 0;C 1;M 1;I 0;I 1;U 0 0 1;U 1 0 1;E 0 0 0;M 0;M 1",
+    ],
+    "C13": [
+        # fixed C13-reload-drops: a router that connects after a reload (even of an unchanged file) was dropped at once
+        "C 0;I 0;U 0 0 0;R 0 0 0 1 1 0 -;H;C 1;I 1;U 1 5 0;R 1 5 0 3 1 0 -;Q 0 1",
+        "H;C 0;I 0;U 0 0 0;R 0 0 0 2 1 0 -;Q 0 1",
+        # sessions and RIB contents survive reloads; the listener moves; a lost connection after a reload still cleans up
+        "C 0;I 0;U 0 0 0;R 0 0 0 1 1,2 0 -;L;R 0 0 0 2 2 0 -;H;Q 0 1;Q 0 2;C 1;I 1;U 1 0 0;R 1 0 0 3 1 0 -;L;X 0;Q 0 1;Q 0 2",
     ],
 }
 
@@ -86,9 +95,10 @@ def e2e_engine(prop):
                             f"R {k} {p} 0 {rng.below(5)} {pipegen.plist(rng, 1, 2)} 0 -"]
                     if pr["metrics"]:
                         out.append(f"M {k}")
-            if pr.get("reload") and rng.chance(15):
-                # a configuration reload, with or without a new listen port (known finding C01-2 from there on)
-                out.insert(rng.below(len(out) + 1), rng.choice(["L", "H"]))
+            if pr.get("reload") and rng.chance(pr.get("reload_pc", 15)):
+                # configuration reloads, with or without a new listen port, at random points
+                for _ in range(rng.range(1, 2)):
+                    out.insert(rng.below(len(out) + 1), rng.choice(["L", "H", "H"]))
             yield ";".join(out)
 
     def nontrivial(case, out):
@@ -125,5 +135,5 @@ def e2e_engine(prop):
             "shards": 4, "timeout": 1500, "shrink": True}
 
 
-# the profile that meets every recorded class (routers return, metrics are read)
+# default profile: routers return, metrics are read
 E2E_ENGINE = e2e_engine("C15")
